@@ -642,7 +642,7 @@ def check_refit_and_mutation(ctx):
         def go(drv=drv, name=name):
             summ = dict(ABSTRACT_SUMMARIES)
             for f in ctx.P.functions.values():
-                if f.cls is None and len(f.params) == 3 and "alpha" in f.params[1] and "beta" in f.params[2]:
+                if __import__("skverif.rules.c03", fromlist=["is_penaliser"]).is_penaliser(f):
                     summ[f.qualname] = _pen_summary
             ex = new_executor(ctx, summ, max_paths=600)
 
@@ -807,10 +807,23 @@ def check_update(ctx, det_base):
     if upd is None or dflt is None:
         ctx.undecided(rule, "update", det_base.module.relpath, "update/_update not found")
         return
-    # update: self._X = X.combine_first(self._X) ; then self._update(X=X, y=y)
+    # the attributes that hold the training data: where `fit` stores its X and y arguments (private names: found, not assumed)
+    fitm = det_base.methods.get("fit")
+    xattr, yattr = "_X", "_y"
+    if fitm is not None and len(fitm.params) >= 3:
+        for a, n, rhs in attr_stores(fitm):
+            if isinstance(rhs, ast.Name) and rhs.id == fitm.params[1]:
+                xattr = a
+            if isinstance(rhs, ast.Name) and rhs.id == fitm.params[2]:
+                yattr = a
+    me_u = self_name(upd)
+    xprm = upd.params[1] if len(upd.params) > 1 else "X"
+    # update: self.<X attr> = X.combine_first(self.<X attr>) ; then self._update(X=X, y=y)
     st = {a: (n, rhs) for a, n, rhs in attr_stores(upd)}
-    okx = "_X" in st and isinstance(st["_X"][1], ast.Call) and isinstance(st["_X"][1].func, ast.Attribute) and st["_X"][1].func.attr == "combine_first" and isinstance(st["_X"][1].func.value, ast.Name) and st["_X"][1].func.value.id == "X" and len(st["_X"][1].args) == 1 and ast.unparse(st["_X"][1].args[0]) == "self._X"
-    ctx.check(okx, rule, "update|_X", upd.loc(st["_X"][0]) if "_X" in st else upd.loc(), "update stores the new data combined with the old: self._X = X.combine_first(self._X) (new rows win, old rows are kept)", found=norm_src(st["_X"][0]) if "_X" in st else "no store to _X", expected="self._X = X.combine_first(self._X)")
+    okx = xattr in st and isinstance(st[xattr][1], ast.Call) and isinstance(st[xattr][1].func, ast.Attribute) and st[xattr][1].func.attr == "combine_first" and isinstance(st[xattr][1].func.value, ast.Name) and st[xattr][1].func.value.id == xprm and len(st[xattr][1].args) == 1 and ast.unparse(st[xattr][1].args[0]) == f"{me_u}.{xattr}"
+    ctx.check(okx, rule, "update|_X", upd.loc(st[xattr][0]) if xattr in st else upd.loc(), "update stores the new data combined with the old: self._X = X.combine_first(self._X) (new rows win, old rows are kept)", found=norm_src(st[xattr][0]) if xattr in st else f"no store to {xattr}", expected=f"self.{xattr} = X.combine_first(self.{xattr})")
+    if xattr != "_X":
+        st["_X"] = st.get(xattr, st.get("_X"))
     calls = [nm for nm, _ in self_calls(upd)]
     ctx.check("_update" in calls, rule, "update|dispatch", upd.loc(), "update dispatches to _update after storing the combined data", found=calls)
     if "_X" in st:
@@ -818,7 +831,8 @@ def check_update(ctx, det_base):
         ctx.check(order_ok, rule, "update|order", upd.loc(), "the combined data are stored before _update runs", nontrivial=False)
     # default _update refits on the stored (combined) data
     fitcalls = [n for nm, n in self_calls(dflt) if nm == "_fit"]
-    okf = len(fitcalls) == 1 and [ast.unparse(a) for a in fitcalls[0].args] + [ast.unparse(k.value) for k in fitcalls[0].keywords] == ["self._X", "self._y"]
+    me_d = self_name(dflt)
+    okf = len(fitcalls) == 1 and [ast.unparse(a) for a in fitcalls[0].args] + [ast.unparse(k.value) for k in fitcalls[0].keywords] == [f"{me_d}.{xattr}", f"{me_d}.{yattr}"]
     ctx.check(okf, rule, "_update|refit", dflt.loc(fitcalls[0]) if fitcalls else dflt.loc(), "the default _update refits on all stored data: self._fit(self._X, self._y)", found=[norm_src(n) for n in fitcalls] or "no _fit call")
     for c in ctx.P.subclasses(det_base, strict=True):
         if "_update" in c.methods:
